@@ -1,6 +1,8 @@
 import RimuProofs.Lemmas.Run
 import RimuProofs.Props.C01
 import RimuProofs.Props.C11
+import RimuProofs.Props.C20
+import RimuProofs.Lemmas.NITop
 
 /-!
 # C19  Diagnostics are complete and never spurious for the documented errors
@@ -16,13 +18,18 @@ other effect on the session):
 * `diagnostic_without_callback_is_a_noop`: without a callback a diagnostic changes nothing at all, and with one it only
   appends to the message log (`diagnostic_only_appends`): no renderer state depends on it.
 
-Not proved: that the *html* of a whole render is the same with and without a callback (a two-run statement), and
-that generated well-formed documents produce no diagnostic; both are decided by the check's oracle on generated
+* **the html does not depend on the callback** (`callback_does_not_influence_rendering`, a two-run statement): from any
+  two sessions that differ at most in the installed callback and the messages logged so far, `render` with option
+  sets that differ at most in the callback returns the same html (or fails in the same way) and leaves sessions that
+  again differ at most there.  Proved by pushing the relation `NI` (run from `s` and from `mute s` agree) through
+  every function of the model (`Lemmas/NI*.lean`), for every source, fuel and `compile` oracle.
+
+Not proved: that generated well-formed documents produce no diagnostic; decided by the check's oracle on generated
 documents and their single-fault mutations.
 -/
 
 namespace Props.C19
-open Rimu Py
+open Rimu Py Props.C20
 
 theorem diagnostic_without_callback_is_a_noop (msg : Str) (s : Session) (h : s.callback = false) :
     (errorCallback msg).run s = .ok ((), s) := by
@@ -63,6 +70,89 @@ theorem unknown_block_name_reported (name value : Str) (s : Session) (h : blockG
   unfold blockSetDefinition
   rw [run_bind, run_get]
   simp only [h]
+
+/-- `setOption` on states commutes with muting (from its non-interference) -/
+theorem setOptionPure_mute (n : Str) (v : PyVal) (t : Session) :
+    setOptionPure n v (mute t) = mute (setOptionPure n v t) := by
+  have h := setOption_ni n v t
+  rw [setOption_run, setOption_run] at h
+  exact h.2
+
+theorem setOptionPure_congr (n : Str) (v : PyVal) {t₁ t₂ : Session} (h : mute t₁ = mute t₂) :
+    mute (setOptionPure n v t₁) = mute (setOptionPure n v t₂) := by
+  rw [← setOptionPure_mute, ← setOptionPure_mute, h]
+
+theorem mute_ite_callback (c : Bool) (b : Bool) (t : Session) :
+    mute (if b then { t with callback := c } else t) = mute t := by
+  cases b <;> rfl
+
+/-- applying two option sets that differ in the callback only, to sessions that agree once muted -/
+theorem updateFromPure_congr (o : RenderOptions) (c₁ c₂ : Bool) {s₁ s₂ : Session} (h : mute s₁ = mute s₂) :
+    mute (updateFromPure { o with callback := c₁ } s₁) = mute (updateFromPure { o with callback := c₂ } s₂) := by
+  unfold updateFromPure
+  simp only []
+  have e1 : mute (if s₁.callback then { s₁ with callback := c₁ } else s₁) = mute (if s₂.callback then { s₂ with callback := c₂ } else s₂) := by
+    rw [mute_ite_callback, mute_ite_callback, h]
+  have e2 := setOptionPure_congr "reset".toList o.reset e1
+  generalize setOptionPure "reset".toList o.reset (if s₁.callback then { s₁ with callback := c₁ } else s₁) = u₁ at e2 ⊢
+  generalize setOptionPure "reset".toList o.reset (if s₂.callback then { s₂ with callback := c₂ } else s₂) = u₂ at e2 ⊢
+  have e3 : mute (if c₁ then { u₁ with callback := true } else u₁) = mute (if c₂ then { u₂ with callback := true } else u₂) := by
+    rw [mute_ite_callback, mute_ite_callback, e2]
+  generalize (if c₁ then { u₁ with callback := true } else u₁) = v₁ at e3 ⊢
+  generalize (if c₂ then { u₂ with callback := true } else u₂) = v₂ at e3 ⊢
+  have e4 : mute (if o.safeMode != .none then setOptionPure "safeMode".toList (.str o.safeMode.toStr) v₁ else v₁) =
+      mute (if o.safeMode != .none then setOptionPure "safeMode".toList (.str o.safeMode.toStr) v₂ else v₂) := by
+    split
+    · exact setOptionPure_congr _ _ e3
+    · exact e3
+  generalize (if o.safeMode != .none then setOptionPure "safeMode".toList (.str o.safeMode.toStr) v₁ else v₁) = w₁ at e4 ⊢
+  generalize (if o.safeMode != .none then setOptionPure "safeMode".toList (.str o.safeMode.toStr) v₂ else v₂) = w₂ at e4 ⊢
+  split
+  · exact setOptionPure_congr _ _ e4
+  · exact e4
+
+theorem updateFrom_NI2 (o : RenderOptions) (c₁ c₂ : Bool) :
+    NI2 (updateFrom { o with callback := c₁ }) (updateFrom { o with callback := c₂ }) := by
+  intro s₁ s₂ h
+  rw [updateFrom_run, updateFrom_run]
+  exact ⟨rfl, updateFromPure_congr o c₁ c₂ h⟩
+
+/-- **Whether a callback is supplied makes no difference to what is rendered** (model): from any two sessions that
+    differ at most in the installed callback and the messages logged so far, `render` with option sets that differ at
+    most in the callback returns the same html (or fails in the same way), and leaves sessions that again differ at
+    most in the callback and the log.  For every source, every fuel, every `compile` oracle. -/
+theorem callback_does_not_influence_rendering (env : Env) (fuel : Nat) (src : Str) (o : RenderOptions) (c₁ c₂ : Bool)
+    (s₁ s₂ : Session) (h : mute s₁ = mute s₂) :
+    Same ((apiRender env fuel src { o with callback := c₁ }).run s₁) ((apiRender env fuel src { o with callback := c₂ }).run s₂) := by
+  have hdoc := (mkRec_ni env fuel).2 src
+  have hpre : NI2 (Props.C04.apiPrefix { o with callback := c₁ }) (Props.C04.apiPrefix { o with callback := c₂ }) := by
+    intro t₁ t₂ ht
+    rw [apiPrefix_run, apiPrefix_run]
+    refine updateFrom_NI2 o c₁ c₂ _ _ ?_
+    have hsm : (mute t₁).safeMode = (mute t₂).safeMode := by rw [ht]
+    change t₁.safeMode = t₂.safeMode at hsm
+    have hi : ∀ t : Session, mute (initState t) = mute (initState (mute t)) := fun _ => rfl
+    rw [hsm]
+    split
+    · rw [hi t₁, hi t₂, ht]
+    · exact ht
+  rw [Props.C04.apiRender_eq, Props.C04.apiRender_eq]
+  exact NI2.bind hpre (fun _ => hdoc.to_NI2) s₁ s₂ h
+
+/-- in particular: the same call with and without a callback, from the same session -/
+theorem html_same_with_and_without_callback (env : Env) (fuel : Nat) (src : Str) (o : RenderOptions) (s : Session)
+    (html : Str) (s' : Session) (hr : (apiRender env fuel src { o with callback := true }).run s = .ok (html, s')) :
+    ∃ t', (apiRender env fuel src { o with callback := false }).run s = .ok (html, t') ∧ mute t' = mute s' := by
+  have h := callback_does_not_influence_rendering env fuel src o true false s s rfl
+  rw [hr] at h
+  unfold Same at h
+  cases hr2 : (apiRender env fuel src { o with callback := false }).run s with
+  | error e => rw [hr2] at h; simp only at h
+  | ok r =>
+    obtain ⟨b, t'⟩ := r
+    rw [hr2] at h
+    simp only at h
+    exact ⟨t', by rw [h.1], h.2.symm⟩
 
 /-- Concrete documents (kernel evaluation): a well-formed document produces no diagnostic; each single fault produces
     exactly its diagnostic; the html is the same with and without a callback. -/
